@@ -4,7 +4,16 @@
 (* memo.  Every generated transition is dumped for replay into the code.    *)
 EXTENDS SpecGraph, Json
 
-CONSTANTS MaxB, MaxDepth, DefChoices, WithGet
+CONSTANTS MaxB, MaxDepth, DefChoices, WithGet,
+          Twins     \* set of pairs <<a, b>>: distinct interface objects that
+                    \* carry the same __name__ and __module__ and therefore
+                    \* compare (and hash) equal, e.g. an interface and its
+                    \* redefinition after a module reload.  The universe
+                    \* never lets one specification reach both members of a
+                    \* pair (the merge and the implied set conflate them by
+                    \* design); what remains is that they are different
+                    \* NODES of the graph with bases and dependents of their
+                    \* own.
 
 VARIABLE act
 allvars == <<vars, act>>
@@ -18,12 +27,16 @@ Init == /\ InitEmpty
         /\ defA \in DefChoices
         /\ act = [op |-> "init"]
 
+TwinOK(b) == \A pr \in Twins : \A n \in Nodes :
+                 ~(pr[1] \in ReachSet(b, n) /\ pr[2] \in ReachSet(b, n))
+
 \* depth bound as an action guard (see MC_Registry.DepthOK)
 DepthOK == TLCGet("level") < MaxDepth
 
 Next == \/ \E n \in Nodes : \E nb \in Cands(n) :
               /\ DepthOK
               /\ SetBases(n, nb)
+              /\ TwinOK(bases')
               /\ act' = [op |-> "SetBases", n |-> n, nb |-> nb]
         \/ \E n \in Nodes :
               /\ WithGet /\ DepthOK
@@ -69,4 +82,7 @@ Decl5 == [n \in 1..5 |-> n <= 1]
 NoDef == {{}}
 AnyDef == SUBSET Nodes
 Def12 == {{1}, {1, 2}, {2}}
+DefBoth == {{1, 2}}
+NoTwins == {}
+Twins12 == {<<1, 2>>}
 =============================================================================
